@@ -43,6 +43,7 @@ const KINDS: &[&str] = &[
     "long-rhs-late-lookahead",
     "chain-grammar-with-back-edge",
     "long-rhs-left-recursive",
+    "many-comment-lines",
 ];
 
 pub fn n_stress(tier: Tier) -> u64 {
@@ -205,6 +206,13 @@ pub fn stress_case(tier: Tier, seed: u64, k: u64) -> Stress {
         "long-rhs-left-recursive" => {
             let want = scale(21_000, &mut rng);
             let (text, n) = fit(|n| format!("start L\nenum L {{ Base({}) Rec(L $B) Wrap($B L $T) }}\nterminal Tok {{ $T: () $B: () }}\n", "$T ".repeat(n)), want);
+            Stress { class: kind, longest_list: n, text }
+        }
+        "many-comment-lines" => {
+            // as many consecutive comment lines as fit (a licence banner, a commented-out block)
+            let n = scale(21_000, &mut rng);
+            let unit = if round == 0 { "//\n" } else { *rng.pick(&["//\n", "//\r\n", " //c\n", "//\n\n"]) };
+            let (text, n) = fit(|n| format!("{}{base}struct S\n", unit.repeat(n)), n);
             Stress { class: kind, longest_list: n, text }
         }
         "many-start-statements" => {
